@@ -1,7 +1,7 @@
 (* P_C19 — Leading-term queries, decomposition and constants match the polynomial. *)
 From mathcomp Require Import all_ssreflect all_algebra.
 From SsrMultinomials Require Import mpoly.
-From NP Require Import Base Poly Order Compare Query OrderP Abs Align QueryP Clean SetDimP Proxy ProxyP.
+From NP Require Import Base Poly Order Compare Query OrderP Abs Align QueryP Clean SetDimP Proxy ProxyP GenQuery BridgeQuery.
 Set Implicit Arguments. Unset Strict Implicit. Unset Printing Implicit Defensive.
 Import GRing.Theory.
 Local Open Scope ring_scope.
@@ -119,6 +119,11 @@ Theorem C19_sortable_proxy_group_order k k' :
 Proof. exact: order_index_mleq. Qed.
 End SortProxy.
 
+(* the sources these models were written from are still the modelled ones, statement by statement *)
+Theorem C19_sources_are_the_modelled_ones :
+  all (all id) gen_query_facts /\ [seq size f | f <- gen_query_facts] = [:: 7; 6; 7; 3; 5; 2; 5]%N.
+Proof. exact: bridge_query_facts. Qed.
+
 Print Assumptions C19_lead_is_largest.
 Print Assumptions C19_lead_of_zero.
 Print Assumptions C19_lead_exponent.
@@ -136,3 +141,4 @@ Print Assumptions C19_sortable_proxy_permutation.
 Print Assumptions C19_sortable_proxy_orders_by_leading_term.
 Print Assumptions C19_sortable_proxy_all_pairs.
 Print Assumptions C19_sortable_proxy_group_order.
+Print Assumptions C19_sources_are_the_modelled_ones.
